@@ -90,6 +90,30 @@ class sx_memoryview(metaclass=_MemoryViewMeta):
     pass
 
 
+def sx_isinstance(x, cls):
+    if isinstance(x, (SInt, SWord)):
+        if cls is int or (isinstance(cls, tuple) and int in cls):
+            return True
+    return builtins.isinstance(x, cls)
+
+
+def sx_log(x, *base):
+    if isinstance(x, (SInt, SWord)) or any(isinstance(b, (SInt, SWord)) for b in base):
+        raise Unencodable('floating-point math.log on a symbolic integer')
+    import math
+    return math.log(x, *base)
+
+
+sx_log.__sx_shim__ = True
+
+
+def patch_math_names(mod):
+    import math
+    d = mod.__dict__
+    if d.get('log') is math.log:
+        d['log'] = sx_log
+
+
 def sx_join(sep, items):
     items = list(items)
     if not any(isinstance(i, SBytes) for i in items):
@@ -209,15 +233,45 @@ def patch_struct_names(mod):
 # ---------------------------------------------------------------------------------------------
 
 class HashModel:
-    '''Per-path memo table of (input, output) pairs for one hash function.'''
+    """A hash function: the real one on concrete input; on symbolic input an uninterpreted
+    function H_n : BitVec(8n) -> BitVec(8*outlen) applied to the input term (so equal inputs
+    give equal outputs by congruence, without forking), with injectivity instantiated pairwise
+    over all applications made so far on the path (collision freedom), and tied to the real
+    hash wherever the symbolic input equals a concrete input seen on the path.  Any *prefix* of
+    the output stays free, so truncated-hash collisions are found by the solver."""
 
     def __init__(self, name, real, outlen=32):
         self.name = name
         self.real = real
         self.outlen = outlen
+        self.injective = True
+        self._ufs = {}
 
     def table(self):
         return engine().path_local.setdefault(('hash', self.name), [])
+
+    def uf(self, n):
+        f = self._ufs.get(n)
+        if f is None:
+            f = self._ufs[n] = z3.Function(f'{self.name}_{n}', z3.BitVecSort(8 * n),
+                                           z3.BitVecSort(8 * self.outlen))
+        return f
+
+    def _note_concrete(self, xb, out):
+        tab = self.table()
+        for kind, i, _o, _t in tab:
+            if kind == 'c' and i == xb:
+                return
+        eng = engine()
+        if self.injective:
+            for kind, i, o, t in tab:
+                if kind == 's' and len(i) == len(xb):
+                    eq = i._eq_term(xb)
+                    oeq = t == z3.BitVecVal(int.from_bytes(out, 'big'), 8 * self.outlen)
+                    eng.assume(eq == oeq if not isinstance(eq, bool) else (oeq if eq else z3.Not(oeq)))
+                elif kind == 's':
+                    eng.assume(t != z3.BitVecVal(int.from_bytes(out, 'big'), 8 * self.outlen))
+        tab.append(('c', xb, out, None))
 
     def __call__(self, x):
         eng = engine()
@@ -230,34 +284,45 @@ class HashModel:
         if isinstance(x, (builtins.bytes, builtins.bytearray, builtins.memoryview)):
             xb = builtins.bytes(x)
             out = self.real(xb)
-            tab = self.table()
-            if not any(isinstance(i, builtins.bytes) and i == xb for i, _ in tab):
-                tab.append((xb, out))
+            self._note_concrete(xb, out)
             return out
         if not isinstance(x, SBytes):
             raise TypeError(type(x))
         if x.is_concrete():
             xb = x.concrete()
-            out = SBytes(list(self.real(xb)))
-            tab = self.table()
-            if not any(isinstance(i, builtins.bytes) and i == xb for i, _ in tab):
-                tab.append((xb, out))
-            return out
+            out = self.real(xb)
+            self._note_concrete(xb, out)
+            return SBytes(list(out))
+        n = len(x)
+        xt = symx.wide_term(x)
+        t = self.uf(n)(xt)
+        m = self.outlen
+        out = symx.bytes_of_term(t, m)
         tab = self.table()
-        for i, o in tab:
-            if len(i) == len(x) and x == i:
-                return SBytes.of(o)
-        t = z3.BitVec(f'_{self.name}_{len(tab)}_{next(eng._fresh)}', 8 * self.outlen)
-        n = self.outlen
-        out = SBytes([z3.Extract(8 * (n - k) - 1, 8 * (n - k - 1), t) for k in range(n)])
+        if self.injective:
+            for kind, i, o, ot in tab:
+                if kind == 's':
+                    if len(i) != n:
+                        eng.assume(ot != t)
+                    elif not z3.eq(ot, t):
+                        eq = x._eq_term(i)
+                        if eq is not True:
+                            eng.assume(z3.Implies(t == ot, eq) if not isinstance(eq, bool) else t != ot)
+                else:
+                    ov = z3.BitVecVal(int.from_bytes(o, 'big'), 8 * m)
+                    if len(i) != n:
+                        eng.assume(t != ov)
+                    else:
+                        eq = x._eq_term(i)
+                        eng.assume(eq == (t == ov) if not isinstance(eq, bool) else ((t == ov) if eq else (t != ov)))
+            eng.assumptions_used.add(
+                f'{self.name} on symbolic input modelled as an injective uninterpreted function '
+                '(collision-free; output prefixes unconstrained)')
+        else:
+            eng.assumptions_used.add(
+                f'{self.name} on symbolic input modelled as an uninterpreted function (congruence only)')
+        tab.append(('s', x, out, t))
         eng.hash_outputs.append((self.name, x, out))
-        for i, o in tab:
-            ne = out._eq_term(SBytes.of(o))
-            if ne is not False:
-                eng.assume(z3.Not(ne) if not isinstance(ne, bool) else False)
-        tab.append((x, out))
-        eng.assumptions_used.add(
-            f'{self.name} modelled as an injective uninterpreted function on symbolic inputs')
         return out
 
 
@@ -428,7 +493,9 @@ class _Loader(importlib.machinery.SourceFileLoader):
         d['bytes'] = sx_bytes
         d['bytearray'] = sx_bytearray
         d['memoryview'] = sx_memoryview
+        d['isinstance'] = sx_isinstance
         super().exec_module(module)
+        patch_math_names(module)
         patch_struct_names(module)
         patch_hash_names(module)
         patch_array_names(module)
